@@ -52,41 +52,56 @@ pub fn record(cases: &str, table: &str, seed: u64, n: usize, out: &str) {
         let pts: Vec<(f64, f64)> = row["pts"].as_array().unwrap().iter().map(|p| (p["xn"].as_i64().unwrap() as f64 / p["xd"].as_i64().unwrap() as f64, p["cdf"].as_str().unwrap().parse::<f64>().unwrap())).collect();
         let reg = regime(&kind, &params);
         let s = seed.wrapping_mul(2654435761).wrapping_add(c["row"].as_u64().unwrap() * 97 + 1);
-        let (kind2, params2, sup2, pts2) = (kind.clone(), params.clone(), sup.clone(), pts.clone());
-        let res = run_with_timeout(move || {
-            let d = D::new(&kind2, &params2).expect("valid parameters");
-            alea::set_seed(s);
-            let xs = d.sample_n(n);
-            let count_ok = xs.len() == n;
-            let support_ok = xs.iter().all(|x| in_support(*x, &sup2, false));
-            let integer_ok = !discrete || xs.iter().all(|x| *x == x.trunc());
-            let mut sorted = xs.to_vec();
-            sorted.sort_by(|a, b| a.partial_cmp(b).unwrap_or(std::cmp::Ordering::Equal));
-            let cnt: Vec<i64> = pts2.iter().map(|(t, _)| sorted.partition_point(|x| *x <= *t) as i64).collect();
-            // reproducibility: same seed, same stream (first 64 draws, bit for bit)
-            alea::set_seed(s);
-            let again = d.sample_n(64);
-            let repro_ok = again.iter().zip(xs.iter()).all(|(a, b)| a.to_bits() == b.to_bits());
-            let m = d.sample_matrix(3, 5);
-            let shape_ok = m.nrows == 3 && m.ncols == 5 && m.data.len() == 15 && m.data.iter().all(|x| in_support(*x, &sup2, discrete));
-            (count_ok, support_ok, integer_ok, repro_ok, shape_ok, cnt)
-        }, limit);
-        let nf: Vec<i64> = pts.iter().map(|(_, f)| (f * n as f64).round() as i64).collect();
-        let base = json!({"kind": kind, "p": q, "regime": reg, "n": n, "seed": s});
-        let mut ev = base.as_object().unwrap().clone();
-        match res {
-            Ok(Some((count_ok, support_ok, integer_ok, repro_ok, shape_ok, cnt))) => {
-                ev.insert("out".into(), json!("ok")); ev.insert("count_ok".into(), json!(count_ok)); ev.insert("support_ok".into(), json!(support_ok));
-                ev.insert("integer_ok".into(), json!(integer_ok)); ev.insert("repro_ok".into(), json!(repro_ok)); ev.insert("shape_ok".into(), json!(shape_ok));
-                ev.insert("cnt".into(), json!(cnt)); ev.insert("nF".into(), json!(nf));
+        // the object is built three ways: freshly, and - with fewer draws - from another table row of the same kind moved to
+        // these parameters by the bulk update / by the setters (a sampler that caches derived quantities must follow)
+        let other: Option<Vec<f64>> = rows.iter().filter(|r| r["kind"] == c["kind"] && r["p"] != c["p"]).map(|r| params_of(&kind, &ints(&r["p"])))
+            .nth((c["row"].as_u64().unwrap() % 3) as usize).or_else(|| rows.iter().filter(|r| r["kind"] == c["kind"] && r["p"] != c["p"]).map(|r| params_of(&kind, &ints(&r["p"]))).next());
+        let mut builds: Vec<(&str, usize)> = vec![("fresh", n)];
+        if other.is_some() { builds.push(("update", n.min(40000))); builds.push(("setters", n.min(40000))); }
+        for (via, nn) in builds {
+            let (kind2, params2, sup2, pts2, other2) = (kind.clone(), params.clone(), sup.clone(), pts.clone(), other.clone());
+            let via2 = via.to_string();
+            let res = run_with_timeout(move || {
+                let d = match via2.as_str() {
+                    "fresh" => D::new(&kind2, &params2).expect("valid parameters"),
+                    "update" => { let mut o = D::new(&kind2, &other2.unwrap()).expect("valid parameters"); assert!(o.update(&params2), "update to valid parameters rejected"); o }
+                    _ => { let o0 = D::new(&kind2, &other2.unwrap()).expect("valid parameters"); let mut a = o0.clone();
+                           if (0..params2.len()).all(|i| a.set(i, params2[i])) { a } else { let mut b = o0.clone(); assert!((0..params2.len()).rev().all(|i| b.set(i, params2[i])), "setters to valid parameters rejected"); b } }
+                };
+                alea::set_seed(s);
+                let xs = d.sample_n(nn);
+                let count_ok = xs.len() == nn;
+                let support_ok = xs.iter().all(|x| in_support(*x, &sup2, false));
+                let integer_ok = !discrete || xs.iter().all(|x| *x == x.trunc());
+                let mut sorted = xs.to_vec();
+                sorted.sort_by(|a, b| a.partial_cmp(b).unwrap_or(std::cmp::Ordering::Equal));
+                let cnt: Vec<i64> = pts2.iter().map(|(t, _)| sorted.partition_point(|x| *x <= *t) as i64).collect();
+                // reproducibility: same seed, same stream (first 64 draws, bit for bit)
+                alea::set_seed(s);
+                let again = d.sample_n(64);
+                let repro_ok = again.iter().zip(xs.iter()).all(|(a, b)| a.to_bits() == b.to_bits());
+                let m = d.sample_matrix(3, 5);
+                let shape_ok = m.nrows == 3 && m.ncols == 5 && m.data.len() == 15 && m.data.iter().all(|x| in_support(*x, &sup2, discrete));
+                (count_ok, support_ok, integer_ok, repro_ok, shape_ok, cnt)
+            }, limit);
+            let nf: Vec<i64> = pts.iter().map(|(_, f)| (f * nn as f64).round() as i64).collect();
+            let regv = if via == "fresh" { reg.clone() } else { format!("{} via-{}", reg, via) };
+            let base = json!({"kind": kind, "p": q, "regime": regv, "n": nn, "seed": s});
+            let mut ev = base.as_object().unwrap().clone();
+            match res {
+                Ok(Some((count_ok, support_ok, integer_ok, repro_ok, shape_ok, cnt))) => {
+                    ev.insert("out".into(), json!("ok")); ev.insert("count_ok".into(), json!(count_ok)); ev.insert("support_ok".into(), json!(support_ok));
+                    ev.insert("integer_ok".into(), json!(integer_ok)); ev.insert("repro_ok".into(), json!(repro_ok)); ev.insert("shape_ok".into(), json!(shape_ok));
+                    ev.insert("cnt".into(), json!(cnt)); ev.insert("nF".into(), json!(nf));
+                }
+                other => {
+                    ev.insert("out".into(), json!(if other.is_err() { "timeout" } else { "panic" }));
+                    for k in ["count_ok", "support_ok", "integer_ok", "repro_ok", "shape_ok"] { ev.insert(k.into(), json!(false)); }
+                    ev.insert("cnt".into(), json!([])); ev.insert("nF".into(), json!([]));
+                }
             }
-            other => {
-                ev.insert("out".into(), json!(if other.is_err() { "timeout" } else { "panic" }));
-                for k in ["count_ok", "support_ok", "integer_ok", "repro_ok", "shape_ok"] { ev.insert(k.into(), json!(false)); }
-                ev.insert("cnt".into(), json!([])); ev.insert("nF".into(), json!([]));
-            }
+            t.emit(Value::Object(ev));
         }
-        t.emit(Value::Object(ev));
     });
     t.finish();
 }
